@@ -20,7 +20,7 @@ ID = "C14"
 RULE = (
     "case = a history of up to 14 operations with inline inputs (read V3000/V2000 text, "
     "canonicalize, pipeline, parse valid and INVALID strings, read DAMAGED molfiles (cut short, "
-    "dangling continuation dash, wrong counts, missing M  END), normalise a string, write a molfile, "
+    "dangling continuation dash, wrong counts, missing M  END), normalise a string, write a molfile (also with recalculated coordinates), "
     "permute_molecule(seed), consume the global random generator, 'run the next k operations in k "
     "threads at once' under a 1 microsecond switch interval); execution: three persistent server "
     "interpreters per shard with distinct PYTHONHASHSEED (0 plus two derived from VERIF_SEED and "
@@ -45,9 +45,15 @@ def budget(tier):
     return {"examples": 45 if tier == "quick" else 1500, "shards": 16, "wall": 200 if tier == "quick" else 4000}
 
 
+_TIER = {"t": "quick"}
+
+
 @st.composite
-def molfile_text(draw):
-    mol = draw(gens.mols("quick", families=("er", "chem", "skeleton")))
+def molfile_text(draw, big=False):
+    if big and _TIER["t"] == "thorough":
+        mol = draw(gens.fam_er(160))  # past any size threshold of the layout code (n up to 160)
+    else:
+        mol = draw(gens.mols("quick", families=("er", "chem", "skeleton")))
     m = Mol.from_json(mol)
     m = Mol([[a[0], min(a[1], 999), min(a[2], 3), max(-15, min(15, a[3])), a[4], a[5], a[6]] for a in m.atoms], [[i, j, min(max(t, 1), 9)] for i, j, t in m.bonds])
     if draw(st.booleans()) or m.n > 999:
@@ -92,6 +98,9 @@ def op(draw):
     if kind == "read_bad":
         return ["read", draw(damaged_molfile())]
     if kind in ("read", "pipeline", "canon", "write"):
+        if kind == "write" and draw(st.integers(0, 3)) == 0:
+            # the optional layout path of the writer (coordinates recalculated)
+            return ["write_calc", draw(molfile_text(big=draw(st.integers(0, 3)) == 0))]
         return [kind, draw(molfile_text())]
     if kind == "permute":
         return [kind, draw(molfile_text()), draw(st.sampled_from([0.0, 0.42, 0.5, 0.123456789]))]
@@ -118,6 +127,7 @@ def strategy_(draw, tier):
 
 
 def strategy(tier):
+    _TIER["t"] = tier
     return strategy_(tier)
 
 
